@@ -46,8 +46,10 @@ func (om *options) try(args []string, c *ParseContext) (bool, []string) {
 		if _, exclude := c.ExcludedOpts[o]; exclude {
 			continue
 		}
+		seen := len(c.Opts[o])
 		if ok, nargs := (&opt{theOne: o, index: om.index}).Match(args, c); ok {
-			if o.ValueSetFromEnv {
+			if o.ValueSetFromEnv && len(c.Opts[o]) == seen {
+				// matched thanks to its env value without consuming anything: don't try it again
 				c.ExcludedOpts[o] = struct{}{}
 			}
 			return true, nargs
